@@ -19,10 +19,22 @@ PROP = dict(
 )
 
 MANIFEST = dict(
-    text="Coq theorem move_refines_rules: for every well-formed position and every raw Move value (any int8 coordinates, type code, Slides word) "
-         "the bit-level model of MovePreallocated succeeds iff the rules specification (Rules.v) allows the move, with exactly the rules successor, "
-         "and never panics. The model is run against the real Position.Move on ~50k (quick) generated (position, move) pairs per run, bit for bit, "
+    text="Coq theorems (Properties/C01.v, 15 obligations, all closed under the global context). "
+         "move_refines_rules64: for every position satisfying the invariant pos_ok (bitboards/heights/stack words describe a board with only "
+         "flats below the tops, stacks <= 64, byte reserves, canonical stack words, hash = from-scratch formula) and EVERY raw Move value other than "
+         "Pass (any int8 coordinates, type code, Slides word) whose rules successor has no stack above 64, the bit-level model of the repaired "
+         "MovePreallocated succeeds iff the rules specification (Rules.v) allows the move, the result abstracts to exactly the rules successor AND "
+         "satisfies pos_ok again, it fails iff the rules reject, and it never panics. move_exact: legality, panic-freedom, reserves/ply/piece count, "
+         "hash invariant and stack lengths are right with no hypothesis on the successor at all; contents are right as soon as the result has no "
+         "stack above 64. new_ok: tak.New satisfies pos_ok and is the rules' start position. replay_refines / reachable_ok: for every list of raw "
+         "moves replayed from tak.New in a game of at most 64 pieces (sizes 3..6 with the default counts: reachable_ok_default) the replay fails "
+         "exactly when the rules reject a move, never panics, and EVERY position reached satisfies pos_ok and abstracts to the position the rules "
+         "reach; replay_refines64: the same for any game as long as no position on the way has a stack above 64. "
+         "The model is run against the real Position.Move on ~45k (quick) generated (position, move) pairs per run, bit for bit, "
          "and an independent Go rules oracle judges the implementation's outputs directly.",
-    ref='5.1', technique='Coq refinement proof (bit-level model vs rules spec) + extracted-model/implementation differential + Go rules oracle',
+    ref='5.1', technique='Coq refinement + invariant-preservation proof (bit-level model vs rules spec, induction over the drop loop and over move lists) '
+                         '+ extracted-model/implementation differential + Go rules oracle',
     note="Trusted: Coq kernel, extraction (ExtrOcamlBasic), hand transcription of tak/move.go (validated by execution only), generators. "
-         "Theorem currently assumes each stack <= 64 - size (tall_ok), slightly below the 64-piece representation limit.")
+         "The height hypothesis is now the exact limit of the 64-bit stack words (first version: 64 - size): a drop that raises a stack above 64 "
+         "succeeds in the code and silently loses the bottom pieces' colours (sizes 7 and 8 have 84 and 104 pieces, so such positions are "
+         "reachable in principle); nothing in the code checks it. Not proved here: wf of FromSquares/TPS imports of arbitrary boards (C10), Pass.")
